@@ -70,6 +70,31 @@ pub fn fault_check(sb: &Sandbox, case: &Case, fail: &str) -> Result<bool, String
         return Ok(false);
     }
     let log = parse_log(&sb.log);
+    if fail.contains("short_only") {
+        // a short write is not an error: the writer must complete the record; everything is
+        // acknowledged and must be recovered
+        if !log.iter().any(|l| l.op == "writeSHORT") {
+            return Ok(false);
+        }
+        if let Some((i, e)) = m.errors.first() {
+            return Err(format!("a short write (no error) on the journal made operation {i} fail: {e}"));
+        }
+        let acked = states.last().unwrap().state.clone();
+        let cfg = case.cfg.clone();
+        let root = sb.root.clone();
+        let r = std::panic::catch_unwind(std::panic::AssertUnwindSafe(|| -> Result<State, String> {
+            let db = open_db(&root, &cfg, &OpenOpts { workers: 0, lz4: cfg.journal_lz4 }).map_err(|e| format!("reopening failed: {e:?}"))?;
+            dump_db(&db)
+        }));
+        let got = match r {
+            Ok(x) => x?,
+            Err(_) => return Err("recovery panicked after a short write".into()),
+        };
+        if got != acked {
+            return Err(format!("after a short write (half of the bytes accepted by the kernel, no error) acknowledged operations are missing after reopen: {}", state_diff(&got, &acked)));
+        }
+        return Ok(true);
+    }
     let Some(first_fail) = log.iter().find(|l| l.op == "writeFAIL" || l.op == "syncFAIL") else {
         return Ok(false); // fault index beyond the call sequence of this run
     };
@@ -184,6 +209,10 @@ pub fn shard_fault(def: &E2Def, tier: &str, seed: u64, shard: u32, programs: u32
                             faults.push(format!("{idx}:{kind}:{sticky}"));
                         }
                     }
+                    if l.len > 1 {
+                        faults.push(format!("{idx}:short_only:0"));
+                        faults.push(format!("{idx}:short_only:1"));
+                    }
                 }
                 "fsync" | "fdatasync" => {
                     for sticky in [0, 1] {
@@ -248,6 +277,7 @@ fn any_fault_fails(sb: &Sandbox, case: &Case, kind: &str, sticky: &str) -> Optio
     let log = parse_log(&sb.log);
     let init = m.init.unwrap_or(0);
     let idxs: Vec<usize> = log.iter().filter(|l| is_jnl(&l.path)).enumerate().filter(|(_, l)| l.seq >= init && ((kind == "eio_sync") == (l.op != "write")) && (l.op == "write" || l.op == "fsync" || l.op == "fdatasync")).map(|(i, _)| i).collect();
+    let _ = sticky;
     for i in idxs {
         let f = format!("{i}:{kind}:{sticky}");
         if let Err(e) = fault_check(sb, case, &f) {
